@@ -51,6 +51,18 @@ def other_row(job):
             "mix:concat": lambda: ndx.concat([num, x], axis=0),
             "mix:matmul": lambda: ndx.matmul(num, x),
         }
+        # operands without elements (static extent 0) still take part in promotion: the dtype check may not be skipped
+        num0 = ndx.asarray(np.zeros((0, 2), dtype=np.int64)) if mode == "eager" else ndx.array(shape=(0, 2), dtype=ndx.int64)
+        if d != "struct":
+            x0 = ndx.asarray(impl.token_array((0, 2), d)) if mode == "eager" else ndx.array(shape=(0, 2), dtype=impl.dt(d))
+        else:
+            x0 = x
+        mixed.update({
+            "mix:concat-empty-numeric": lambda: ndx.concat([num0, x], axis=0),
+            "mix:concat-empty-other": lambda: ndx.concat([num, x0], axis=0),
+            "mix:concat-empty-other-first": lambda: ndx.concat([x0, num], axis=0),
+            "mix:stack-empty": lambda: ndx.stack([num0, x0]),
+        })
         return tables.outcome(mixed[fn])
     if "@" in fn:
         # the same function with an explicit accumulator / result dtype: a keyword must not open a side door
@@ -116,7 +128,8 @@ def run(ctx: common.Ctx):
     fns = ["sum", "prod", "mean", "var", "std", "max", "min", "cumulative_sum", "argmax", "argmin",
            "sort", "argsort", "matmul", "tril", "triu", "clip", "all", "any", "abs_method",
            "neg_method", "invert_method", "add", "equal", "less", "logical_and", "sin", "where_cond"]
-    fns += ["mix:searchsorted-x2", "mix:searchsorted-x1", "mix:clip-min", "mix:clip-max", "mix:concat", "mix:matmul"]
+    fns += ["mix:searchsorted-x2", "mix:searchsorted-x1", "mix:clip-min", "mix:clip-max", "mix:concat", "mix:matmul",
+            "mix:concat-empty-numeric", "mix:concat-empty-other", "mix:concat-empty-other-first", "mix:stack-empty"]
     fns += [f"{f}@{acc}" for f in ("sum", "prod", "cumulative_sum", "var", "std") for acc in ("float64", "int64", "float32")]
     jobs = [(fn, d, mode) for fn in fns for d in ALL_DTYPES + ["struct"] for mode in ("lazy", "eager")]
     if ctx.tier == "quick":
